@@ -10,6 +10,7 @@ from copy import deepcopy
 import torch
 from torch import Tensor
 
+from .. import _verif  # isort: skip
 from .. import settings
 from ..distributions import MultitaskMultivariateNormal, MultivariateNormal
 from ..likelihoods import _GaussianLikelihoodBase
@@ -98,6 +99,8 @@ class ExactGP(GP):
     def _clear_cache(self) -> None:
         # The precomputed caches from test time live in prediction_strategy
         self.prediction_strategy = None
+        if _verif.ON:
+            _verif.owner_event("ps_clear", self)
 
     def local_load_samples(self, samples_dict, memo, prefix):
         """
@@ -146,6 +149,9 @@ class ExactGP(GP):
                         raise RuntimeError(msg)
             self.train_targets = targets
         self.prediction_strategy = None
+        if _verif.ON:
+            _verif.owner_event("set_train_data", self)
+            _verif.owner_event("ps_clear", self)
 
     def get_fantasy_model(self, inputs, targets, **kwargs):
         """
@@ -302,6 +308,8 @@ class ExactGP(GP):
                     )
 
             # Get the terms that only depend on training data
+            if _verif.ON:
+                _verif.owner_event("ps_create" if self.prediction_strategy is None else "ps_reuse", self)
             if self.prediction_strategy is None:
                 train_output = super().__call__(*train_inputs, **kwargs)
 
